@@ -18,14 +18,19 @@ CHECKS = {
     "C02": dict(level="exploration",
                 text="Seeded search over schedules: 1-4 concurrent generated executions per simulated run under shuffle/"
                      "PCT/latency schedule policies; the notification sequence of every execution and the stored record "
-                     "are monitored after every scheduler step, and bounded liveness is checked at quiescence.",
-                ref="5/C02", note=NOTE_BASE + ". No faults injected (C04 owns crashes).",
+                     "are monitored after every scheduler step, and bounded liveness is checked at quiescence; file store "
+                     "(one instance) and Redis store (1-2 instances), both transports; a second slice runs executions that "
+                     "last about as long as or longer than execution_ttl, so that the stored record expires under them.",
+                ref="5/C02, 9.2", note=NOTE_BASE + ". No crashes injected (C04 owns them); failing cases are minimised "
+                                                  "(checks/minimise.py) and replayed in a fresh process.",
                 technique="deterministic simulation: seeded schedule exploration with run-time monitors"),
     "C03": dict(level="exploration",
                 text="Seeded search over schedules with the broker model as observation point: the carrier invariant is "
                      "evaluated after every acknowledge/publish an engine issues, exactly-once acknowledgement is "
-                     "enforced by the broker model, and the drain condition is checked at quiescence.",
-                ref="5/C03", note=NOTE_BASE + ".",
+                     "enforced by the broker model, a Basic.Ack(multiple=True) that settles other deliveries is flagged, "
+                     "uninterpretable messages are injected on the shared, instance and reply queues, and the drain "
+                     "condition is checked at quiescence.",
+                ref="5/C03, 9.2", note=NOTE_BASE + ".",
                 technique="deterministic simulation: invariant checked at every simulated broker operation"),
 }
 
@@ -60,9 +65,12 @@ CHECKS.update({
                      "persistent messages, the JSON store file; unacknowledged deliveries are redelivered) is injected "
                      "after EVERY scheduler step and after EVERY broker operation of that run; no-loss, no-duplicate-"
                      "request and outcome-preservation oracles. The crash-point set of each scenario run is enumerated "
-                     "completely; scenarios, schedules and down-times are sampled.",
-                ref="5/C04", note=NOTE_BASE + "; single engine instance, file-backed store; workers keep replying while "
-                                             "the engine is down.",
+                     "completely; scenarios, schedules and down-times are sampled. A second, sampled slice injects 2-4 "
+                     "crashes per run (some inside the recovery from the previous one) over file/Redis stores, both "
+                     "transports, 1-2 instances and five schedule policies, with the same oracles plus DescribeExecution "
+                     "after the last restart.",
+                ref="5/C04, 9.2", note=NOTE_BASE + "; the enumerated slice uses a single asyncio instance with the "
+                                                  "file-backed store; workers keep replying while the engine is down.",
                 technique="deterministic simulation with crash/restart fault injection enumerated over every crash point "
                           "of recorded runs"),
     "C07": dict(level="exploration",
@@ -75,8 +83,10 @@ CHECKS.update({
                 text="Virtual-clock comparison of every Wait exit, task request and terminal instant with the reference "
                      "model for generated programs full of waits and time-outs (exact at zero latency; never early under "
                      "latency or an injected engine stall), plus the complete enumeration of all 2879 UTC offsets for "
-                     "Wait TimestampPath and Choice timestamp comparisons.",
-                ref="5/C08", note=NOTE_BASE + "; exact ties between a reply and a deadline are excluded.",
+                     "Wait TimestampPath and Choice timestamp comparisons; Waits and time-outs inside Parallel/Map "
+                     "(MaxConcurrency batches), a deadline oracle for the machine TimeoutSeconds, and a slice of coinciding "
+                     "Task/machine deadlines and of events a stalled engine receives only after the deadlines.",
+                ref="5/C08, 9.2", note=NOTE_BASE + "; exact ties between a reply and a deadline are excluded.",
                 technique="deterministic simulation: discrete-event virtual time, stall faults, enumerated offset slice"),
 })
 
@@ -95,7 +105,9 @@ CHECKS.update({
     "C16": dict(level="exploration",
                 text="Boundary enumeration driven through the simulated system: JSON texts of size L-2..L+2 (and far below/"
                      "above) delivered to every enforcement point - API inputs, callback output, Pass/Task/Map/Parallel "
-                     "state output, task reply - plus definition size, name length/characters and the history limit. Weak "
+                     "state output, task reply - in several text shapes (string, whitespace-padded, compact, nested) at the API "
+                     "boundaries, plus definition size, name length/characters and the history limit (reached by a loop and "
+                     "by retries alone). Weak "
                      "fit for the technique (the comparison has no schedule in it); the simulator is what makes the "
                      "enforcement points reachable at all.",
                 ref="5/C16", note=NOTE_BASE + "; ASCII payloads only.",
@@ -105,13 +117,14 @@ CHECKS.update({
 CHECKS.update({
     "C17": dict(level="exploration",
                 text="Seeded names over an alphabet with every ARN-significant/forbidden character pushed through the API "
-                     "and (bypassing its validators) through child launches; linkage monitor over the StartExecution "
+                     "(and names made of the ARN's own vocabulary) and, bypassing its validators, through child launches; linkage monitor over the StartExecution "
                      "response, notifications, stored record, EXPRESS derivation and the record re-created after an "
                      "injected crash/restart; parse/create inversion on every minted ARN.",
                 ref="5/C17", note=NOTE_BASE + ". The time-out backstop derivation path is not driven.",
                 technique="deterministic simulation: seeded inputs with crash/restart, ARN linkage monitor"),
     "C18": dict(level="exploration",
-                text="Seeded mutation of well-formed machines and arbitrary JSON values: each goes to the bundled validator "
+                text="Seeded mutation of well-formed machines (incl. names duplicated across sibling sub-machines and legal but "
+                     "awkward state names) and arbitrary JSON values: each goes to the bundled validator "
                      "(must return a list) and is started beside a healthy execution together with garbage messages on "
                      "the event queue, under a seeded schedule; accepted-implies-runs, poison-isolation and liveness "
                      "oracles.",
@@ -133,7 +146,9 @@ CHECKS.update({
 CHECKS.update({
     "C19": dict(level="exploration",
                 text="Seeded multi-instance runs (1-3 engines, both transports, classic/quorum queues) with an affinity "
-                     "monitor on every publish and delivery of the simulated broker's operation log, an exclusive-consumer "
+                     "monitor on every publish and delivery of the simulated broker's operation log (every child-launch form: "
+                     "synchronous children stay on the launching instance), poison messages with a rule against acknowledgements "
+                     "that cover other deliveries, an exclusive-consumer "
                      "probe (twin instance), and the address/message/acknowledge mapping of the real Producer/Consumer/"
                      "Message classes of both messaging modules against an independent reading of the address grammar.",
                 ref="5/C19", note=NOTE_BASE + "; 'the wire' is the pika API boundary; instances share no store (preloaded "
@@ -162,7 +177,9 @@ CHECKS.update({
                      "record, stored history and every notification at the moment it is published are compared at publish "
                      "time and after every scheduler step; the record is additionally read where another thread or instance "
                      "can really run (each Redis command boundary; a REST thread at each broker operation of the blocking "
-                     "engine thread); at the end the REST handlers of every instance must agree with the store and each "
+                     "engine thread); a client polls DescribeExecution through a random instance around every status change; "
+                     "a slice of rarely reached ends (output over the quota at a terminal state, execution time-out, ...); at "
+                     "the end the REST handlers of every instance must agree with the store and each "
                      "other. Configurations: file/Redis x STANDARD/EXPRESS x 1-2 instances x both front ends.",
                 ref="5/C11", note=NOTE_BASE + "; fault-free runs; Redis/pottery are in-process fakes; file-backed runs use "
                                              "one instance because a file store is not shared.",
